@@ -64,6 +64,9 @@ def plan(tier, seed):
         cases.append(dict(key=f"Triangle/order={order}", scheme="Triangle", order=order))
         cases.append(dict(key=f"Tetrahedron/order={order}", scheme="Tetrahedron", order=order))
     cases.append(dict(key="BazantOh/n=21", scheme="BazantOh", order=21))
+    # histories: operations on a long-lived scheme object, and schemes created one after another in one process
+    cases.append(dict(key="history/object", scheme="history-object", order=0))
+    cases.append(dict(key="history/instances", scheme="history-instances", order=0))
     return cases
 
 
@@ -107,10 +110,101 @@ def _integrate(points, weights, exps):
     return float(np.sum(v))
 
 
+class _DummyPlotter:
+    def add_points(self, *a, **k):
+        return None
+
+
+def _make(spec):
+    import felupe as fem
+
+    name, kw = spec
+    return getattr(fem.quadrature, name)(**kw)
+
+
+def run_history(case):
+    """(object) every sequence (depth <= 2) of {plot(weighted=True), plot(weighted=False), inv()} on one scheme object, after
+    which the object must still be the rule a fresh construction gives, and inv() must return the inverted points;
+    (instances) every ordered pair of Gauss-Legendre constructions (order 1..4, dim 1..3, permute): the second one must be
+    the tensor-product rule of numpy's leggauss as a multiset, whatever was constructed before."""
+    import felupe as fem
+
+    key = case["key"]
+    viol, nontrivial = [], []
+    ntrans = 0
+
+    def bad(sub, what, obs, exp, tol=0):
+        if len(viol) < 40:
+            viol.append(dict(key=f"{key}/{sub}", what=what, observed=obs, expected=exp, tol=tol))
+
+    if case["scheme"] == "history-object":
+        specs = [("GaussLegendre", dict(order=o, dim=d)) for o in (1, 2, 3) for d in (1, 2, 3)] + [("GaussLegendreBoundary", dict(order=2, dim=3)), ("GaussLobatto", dict(order=1, dim=2)),
+                 ("GaussLobatto", dict(order=3, dim=3)), ("GaussLobattoBoundary", dict(order=2, dim=3)), ("Triangle", dict(order=3)), ("Triangle", dict(order=5)), ("Tetrahedron", dict(order=3)),
+                 ("Tetrahedron", dict(order=5)), ("BazantOh", dict(n=21))]
+        for spec in specs:
+            fresh = _make(spec)
+            P0, W0 = np.array(fresh.points, dtype=float, copy=True), np.array(fresh.weights, dtype=float, copy=True)
+            ops = ["plot(weighted=True)", "plot(weighted=False)"] + (["inv()"] if hasattr(fresh, "inv") else [])
+            for depth in (1, 2):
+                for seq in itertools.product(ops, repeat=depth):
+                    q = _make(spec)
+                    lab = f"{spec[0]}{spec[1]}/" + " > ".join(seq)
+                    for op in seq:
+                        if op.startswith("plot"):
+                            q.plot(plotter=_DummyPlotter(), weighted=(op == "plot(weighted=True)"))
+                        else:
+                            qi = q.inv()
+                            Pi = np.asarray(qi.points, float)
+                            ref = P0.copy()
+                            ref[P0 != 0] = 1 / P0[P0 != 0]
+                            if not np.array_equal(Pi, ref):
+                                bad(lab + "/inv-result", "inv() must return the scheme with the reciprocal non-zero coordinates of the ORIGINAL rule", float(np.abs(Pi - ref).max()), 0)
+                        ntrans += 1
+                    if not (np.array_equal(np.asarray(q.points, float), P0) and np.array_equal(np.asarray(q.weights, float), W0)):
+                        bad(lab + "/object", "points / weights of the scheme object changed by the call history (no longer the rule it was constructed as)",
+                            dict(points=float(np.abs(np.asarray(q.points, float) - P0).max()), weights_sum=float(np.sum(q.weights))), dict(points=0, weights_sum=float(W0.sum())))
+                    nontrivial.append(lab)
+            # a scheme constructed AFTER the histories (default-argument instances are shared process wide)
+            again = _make(spec)
+            if not (np.array_equal(np.asarray(again.points, float), P0) and np.array_equal(np.asarray(again.weights, float), W0)):
+                bad(f"{spec[0]}{spec[1]}/fresh-after", "a scheme constructed after the histories differs from the first construction", "differs", "identical")
+        # the region templates' default quadrature objects are shared by all regions of the process
+        mesh = fem.Rectangle(n=3)
+        for tmpl, m in ((fem.RegionQuad, mesh), (fem.RegionTriangle, mesh.triangulate()), (fem.RegionHexahedron, fem.Cube(n=2)), (fem.RegionTetra, fem.Cube(n=2).triangulate())):
+            r1 = tmpl(m)
+            v1 = float(r1.dV.sum())
+            r1.quadrature.plot(plotter=_DummyPlotter(), weighted=True)
+            if hasattr(r1.quadrature, "inv"):
+                r1.quadrature.inv()
+            v2 = float(tmpl(m).dV.sum())
+            ntrans += 2
+            if abs(v2 - v1) > 1e-13 or abs(v1 - 1.0) > 1e-13:
+                bad(f"template/{tmpl.__name__}", "region created after plotting / inverting another region's default quadrature measures another volume", [v1, v2], [1.0, 1.0], 1e-13)
+        return dict(viol=viol, states=len(nontrivial), transitions=ntrans, traces=len(nontrivial), nontrivial=nontrivial, outcomes=[f"object-histories={len(nontrivial)}"], sample=dict(case=key, schemes=len(specs)), digest=f"{len(nontrivial)}/{len(viol)}")
+    cfgs = [(o, d, pm) for o in (1, 2, 3, 4) for d in (1, 2, 3) for pm in (False, True)]
+    for a in cfgs:
+        for b in cfgs:
+            fem.quadrature.GaussLegendre(order=a[0], dim=a[1], permute=a[2])
+            if a[1] > 1:
+                fem.quadrature.GaussLegendreBoundary(order=a[0], dim=a[1], permute=a[2])
+            q = fem.quadrature.GaussLegendre(order=b[0], dim=b[1], permute=b[2])
+            ntrans += 2
+            x, w = np.polynomial.legendre.leggauss(b[0] + 1)
+            grid = np.array(list(itertools.product(range(len(x)), repeat=b[1])))
+            ref = sorted(map(tuple, np.round(np.column_stack([x[grid], np.prod(w[grid], axis=1)]), 13).tolist()))
+            got = sorted(map(tuple, np.round(np.column_stack([np.asarray(q.points, float).reshape(len(q.weights), -1), q.weights]), 13).tolist())) if len(q.weights) == len(ref) else None
+            if got != ref:
+                bad(f"first={a}/then={b}", "Gauss-Legendre rule constructed after another one is not the tensor-product Gauss rule", dict(npoints=int(len(q.weights)), weight_sum=float(np.sum(q.weights))), dict(npoints=len(ref), weight_sum=2.0 ** b[1]))
+            nontrivial.append(f"{a}>{b}")
+    return dict(viol=viol, states=len(nontrivial), transitions=ntrans, traces=len(nontrivial), nontrivial=nontrivial, outcomes=[f"ordered-pairs={len(nontrivial)}"], sample=dict(case=key, configurations=len(cfgs)), digest=f"{len(nontrivial)}/{len(viol)}")
+
+
 def run(case):
     import felupe as fem
 
     s = case["scheme"]
+    if s.startswith("history"):
+        return run_history(case)
     order = case["order"]
     viol, nontrivial, outcomes = [], [], set()
     ntrans = 0
